@@ -34,6 +34,7 @@ class DeliveryChecker:
     def start(self, run, snaps):
         self.run = run
         self.results = []   # (node index, op, res)
+        self.result_ks = []
         self.airlog = []    # (k, entry)
         self.reads = {i: [] for i in range(len(self.specs))}
         self.clock_before = 0
@@ -44,6 +45,7 @@ class DeliveryChecker:
             return ("CXX/call-does-not-terminate", "%r" % (op[:2],))
         if name in ("nwrite", "multicast"):
             self.results.append((cur, op, res, self.clock_before, self.run.world.now_ns))
+            self.result_ks.append(k)
         if name == "nread" and res[0] == 0 and res[1] == 1:
             self.reads[cur].append(res[2:])
         if name == "update" and res[0] != 0:
